@@ -85,7 +85,8 @@ Definition fs_apply (s : fsys) (e : event) : fsys :=
     end
   | EvMkdirData => s
   | EvMkdirMerge => mkFs (fs_files s) (fs_hints s) (fs_marker s) true
-  | EvRemove f => mkFs (fdel (fs_files s) f) (fdel (fs_hints s) f) (fs_marker s) (fs_merge s)
+  | EvRemove f => mkFs (fdel (fs_files s) f) (fdel (fs_hints s) f)
+                       (match f with MMarker => None | _ => fs_marker s end) (fs_merge s)
   | EvRename a b =>
     match fget (fs_files s) a with
     | Some x => mkFs (fset (fdel (fs_files s) a) b x) (fs_hints s) (fs_marker s) (fs_merge s)
@@ -132,6 +133,16 @@ Definition fs_to_disk (s : fsys) (m : cut_mode) : disk :=
          (if fs_merge s
           then Some (mkMdir (cutf MData (data_files (fs_files s) true)) (fget (fs_hints s) MHint) (fs_marker s))
           else None).
+
+(* os.RemoveAll unlinks the entries of the merge directory one by one, in an order the file system
+   chooses: a process that dies inside it leaves the directory with ANY subset of its entries.
+   [gone f] says which entries were already unlinked. *)
+Definition fs_partial_rm (s : fsys) (gone : fname -> bool) : fsys :=
+  mkFs (filter (fun x => negb (in_merge_dir (fst x) && gone (fst x))) (fs_files s))
+       (filter (fun x => negb (in_merge_dir (fst x) && gone (fst x))) (fs_hints s))
+       (if gone MMarker then None else fs_marker s) (fs_merge s).
+Definition crash_open_rm (c : cfg) (evs : list event) (k : nat) (gone : fname -> bool) : open_res * list event :=
+  db_open c (fs_to_disk (fs_partial_rm (fs_replay fs_empty (firstn k evs)) gone) CutNone).
 
 (* the crash image after the first k events, and what Open makes of it *)
 Definition crash_disk (evs : list event) (k : nat) (m : cut_mode) : disk :=
